@@ -4,25 +4,25 @@ use crypto_bigint::{CheckedAdd, CheckedSub, Uint};
 
 fn fixed<const N: usize>(op: &str, a: &[&str]) -> Option<String> {
     Some(match (op, a) {
-        ("u.adc", [x, y, c]) => {
+        ("c04.u.adc", [x, y, c]) => {
             let (x, y, c) = (arg!(uint::<N>(x)), arg!(uint::<N>(y)), arg!(limb(c)));
             let (r, c) = x.adc(&y, c);
             format!("{} {}", uhex(&r), lhex(c))
         }
-        ("u.sbb", [x, y, c]) => {
+        ("c04.u.sbb", [x, y, c]) => {
             let (x, y, c) = (arg!(uint::<N>(x)), arg!(uint::<N>(y)), arg!(limb(c)));
             let (r, c) = x.sbb(&y, c);
             format!("{} {}", uhex(&r), lhex(c))
         }
-        ("u.wrapping_add", [x, y]) => uhex(&arg!(uint::<N>(x)).wrapping_add(&arg!(uint::<N>(y)))),
-        ("u.wrapping_sub", [x, y]) => uhex(&arg!(uint::<N>(x)).wrapping_sub(&arg!(uint::<N>(y)))),
-        ("u.saturating_add", [x, y]) => uhex(&arg!(uint::<N>(x)).saturating_add(&arg!(uint::<N>(y)))),
-        ("u.saturating_sub", [x, y]) => uhex(&arg!(uint::<N>(x)).saturating_sub(&arg!(uint::<N>(y)))),
-        ("u.checked_add", [x, y]) => {
+        ("c04.u.wrapping_add", [x, y]) => uhex(&arg!(uint::<N>(x)).wrapping_add(&arg!(uint::<N>(y)))),
+        ("c04.u.wrapping_sub", [x, y]) => uhex(&arg!(uint::<N>(x)).wrapping_sub(&arg!(uint::<N>(y)))),
+        ("c04.u.saturating_add", [x, y]) => uhex(&arg!(uint::<N>(x)).saturating_add(&arg!(uint::<N>(y)))),
+        ("c04.u.saturating_sub", [x, y]) => uhex(&arg!(uint::<N>(x)).saturating_sub(&arg!(uint::<N>(y)))),
+        ("c04.u.checked_add", [x, y]) => {
             let r: Option<Uint<N>> = arg!(uint::<N>(x)).checked_add(&arg!(uint::<N>(y))).into();
             r.map(|v| uhex(&v)).unwrap_or("none".into())
         }
-        ("u.checked_sub", [x, y]) => {
+        ("c04.u.checked_sub", [x, y]) => {
             let r: Option<Uint<N>> = arg!(uint::<N>(x)).checked_sub(&arg!(uint::<N>(y))).into();
             r.map(|v| uhex(&v)).unwrap_or("none".into())
         }
@@ -32,19 +32,19 @@ fn fixed<const N: usize>(op: &str, a: &[&str]) -> Option<String> {
 
 pub fn dispatch(op: &str, a: &[&str]) -> Option<String> {
     match (op, a) {
-        ("w.adc", [x, y, c]) => {
+        ("c04.w.adc", [x, y, c]) => {
             let (r, c) = arg!(limb(x)).adc(arg!(limb(y)), arg!(limb(c)));
             Some(format!("{} {}", lhex(r), lhex(c)))
         }
-        ("w.sbb", [x, y, c]) => {
+        ("c04.w.sbb", [x, y, c]) => {
             let (r, c) = arg!(limb(x)).sbb(arg!(limb(y)), arg!(limb(c)));
             Some(format!("{} {}", lhex(r), lhex(c)))
         }
-        ("w.mac", [x, y, z, c]) => {
+        ("c04.w.mac", [x, y, z, c]) => {
             let (r, c) = arg!(limb(x)).mac(arg!(limb(y)), arg!(limb(z)), arg!(limb(c)));
             Some(format!("{} {}", lhex(r), lhex(c)))
         }
-        _ if op.starts_with("u.") && !a.is_empty() => {
+        _ if op.starts_with("c04.u.") && !a.is_empty() => {
             let n = arg!(dec(a[0]));
             let rest = &a[1..];
             with_n!(n, fixed, op, rest)
